@@ -446,3 +446,7 @@ Proof.
   - left. now apply legal_meaning.
   - right. unfold revive in H. apply andb_true_iff in H as [H1 H2]. split; now apply internal_TaskState_dec_bl.
 Qed.
+
+(* C06: an error code is only ever stored on a task in the error state *)
+Theorem error_only_with_error_state ns c0 ops t : t_err (tk (run ns c0 ops) t) <> None -> st (run ns c0 ops) t = SError.
+Proof. destruct (run_J ns c0 ops) as ((_ & HQ & _) & _). apply HQ. Qed.
